@@ -523,7 +523,7 @@ pub fn family_source(name: &str, n: usize) -> String {
 
 const WALL_CAP_S: u64 = 20;
 /// cap for one (family, n) process: two orders of magnitude above the largest legitimate case
-const FAMILY_CAP_S: u64 = 8;
+const FAMILY_CAP_S: u64 = 20;
 
 fn progress_path(tag: &str) -> std::path::PathBuf {
     let dir = std::env::var("CARGO_TARGET_DIR").map(std::path::PathBuf::from).unwrap_or_else(|_| crate::report::verif_root().join("target"));
@@ -860,13 +860,15 @@ pub fn run(tier: Tier) -> i32 {
             }
         }
         if let Some((n, status)) = first_death {
-            let key = if status == "hang" { format!("hang:family:{f}") } else { format!("stack-overflow:family:{f}") };
+            // a member that does not answer in time and one that answers with an exploded allocation
+            // volume are the same finding (which of the two is seen depends on the machine's speed)
+            let key = if status == "hang" { format!("cost-explosion:family:{f}") } else { format!("stack-overflow:family:{f}") };
             let what = if status == "hang" { format!("family {f}: no answer within {FAMILY_CAP_S}s at n={n}") } else { format!("family {f}: worker died at n={n} ({status}) on an 8 MiB stack") };
             run.violate(Some(key), what, json!({"driver":"family","family": f, "n": n, "case": {"source": family_source(f, n)}, "status": status}));
         }
         // growth: doubling n must not multiply the allocation volume by more than 2^3.5
-        if worst_ratio > 11.32 {
-            run.violate(Some(format!("superpolynomial-growth:family:{f}")), format!("family {f}: allocation volume grows by ×{worst_ratio:.1} when n doubles"), json!({"driver":"family","family": f, "ratio": worst_ratio}));
+        if worst_ratio > 11.32 && !rows.iter().any(|r| r.2 == "hang") {
+            run.violate(Some(format!("cost-explosion:family:{f}")), format!("family {f}: allocation volume grows by ×{worst_ratio:.1} when n doubles"), json!({"driver":"family","family": f, "ratio": worst_ratio}));
         }
         run.observe(fnv(f));
     }
